@@ -758,6 +758,12 @@ type c03OptListOfOpt struct {
 	L []*int64 `parquet:"l,optional,list"`
 }
 
+// a LIST whose elements are optional although the Go element type is not a pointer
+type c03ListOptElem struct {
+	L []int64 `parquet:"l,list" parquet-element:",optional"`
+	Q int64   `parquet:"q"`
+}
+
 var c03Statics = []c03Static{
 	c03Reg[c03OptI32]("OptI32"),
 	c03Reg[c03OptPtr]("OptPtr"),
@@ -776,6 +782,7 @@ var c03Statics = []c03Static{
 	c03Reg[c03Wide]("Wide"),
 	c03Reg[c03OptInOpt]("OptInOpt"),
 	c03Tagged(c03Reg[c03OptListOfOpt]("OptListOfOpt"), "list-of-pointers"),
+	c03Reg[c03ListOptElem]("ListOptElem"),
 }
 
 func c03Tagged(s c03Static, tag string) c03Static { s.tag = tag; return s }
